@@ -46,6 +46,7 @@ func isStdCall(v ssa.Value, pkg, name string) (*ssa.Call, bool) {
 func runC15(p *core.Program, r *core.Report) {
 	c := rc{p, r}
 	noAnswerBeforeTheScan(c, "gogu.ToLower", "gogu.ToUpper", "gogu.Capitalize", "gogu.WrapAllRune", "gogu.ReverseStr", "gogu.SplitAtIndex")
+	resultUntouchedAfterTheScan(c, "gogu.ToLower", "gogu.ToUpper", "gogu.Capitalize", "gogu.WrapAllRune", "gogu.ReverseStr", "gogu.SplitAtIndex")
 	hygiene(c, "string.go")
 
 	// ---------------- case mapping
